@@ -259,57 +259,61 @@ fn main() {
         check.finish();
     }
 
-    // ---- part 2: deterministic grid
-    let thorough = check.tier == Tier::Thorough;
-    let mut grid: Vec<StatusCase> = vec![];
-    for (ti, t) in tps.iter().enumerate() {
-        let bases: Vec<&str> = if thorough { t.bases.clone() } else { vec![t.bases[ti % t.bases.len()]] };
-        for (bi, b) in bases.iter().enumerate() {
-            for d in damage::grid() {
-                if t.input.is_none() && !matches!(d, Damage::None) {
-                    continue;
+    // development aid: C20_ONLY_P3=1 skips parts 1 and 2 (their essential classes then report inconclusive)
+    let only_p3 = std::env::var("C20_ONLY_P3").is_ok();
+    if !only_p3 {
+        // ---- part 2: deterministic grid
+        let thorough = check.tier == Tier::Thorough;
+        let mut grid: Vec<StatusCase> = vec![];
+        for (ti, t) in tps.iter().enumerate() {
+            let bases: Vec<&str> = if thorough { t.bases.clone() } else { vec![t.bases[ti % t.bases.len()]] };
+            for (bi, b) in bases.iter().enumerate() {
+                for d in damage::grid() {
+                    if t.input.is_none() && !matches!(d, Damage::None) {
+                        continue;
+                    }
+                    // every template sees every base at least as a valid input
+                    grid.push(StatusCase { template: t.key(), base: b.to_string(), damage: d });
                 }
-                // every template sees every base at least as a valid input
-                grid.push(StatusCase { template: t.key(), base: b.to_string(), damage: d });
+                let _ = bi;
             }
-            let _ = bi;
-        }
-        if !thorough {
-            for b in t.bases.iter() {
-                if *b != bases[0] {
-                    grid.push(StatusCase { template: t.key(), base: b.to_string(), damage: Damage::None });
+            if !thorough {
+                for b in t.bases.iter() {
+                    if *b != bases[0] {
+                        grid.push(StatusCase { template: t.key(), base: b.to_string(), damage: Damage::None });
+                    }
                 }
             }
         }
+        parallel_for(&grid, |case| {
+            let r = vcheck::engine::guard("status-grid", || status_property(&check, &tps, case)).and_then(|x| x);
+            if let Err(f) = r {
+                check.fail(&f, part2::case_json(case));
+            }
+        });
+
+        // ---- part 1: deterministic grids
+        let gc = grid_create();
+        parallel_for(&gc, |c| {
+            let r = vcheck::engine::guard("create-grid", || part1::run_create(&check, c)).and_then(|x| x);
+            if let Err(f) = r {
+                check.fail(&f, json!({"part": "create", "case": c}));
+            }
+        });
+        let gl = grid_lib();
+        parallel_for(&gl, |c| {
+            let r = vcheck::engine::guard("lib-grid", || part1::run_lib(&check, c)).and_then(|x| x);
+            if let Err(f) = r {
+                check.fail(&f, json!({"part": "lib", "case": c}));
+            }
+        });
+
+        // ---- random volume
+        let opts = || pt::Opts { max_shrink_iters: 60, ..pt::Opts::default() };
+        pt::run(&check, "create-random", check.tier.pick(32, 1500), opts(), part1::create_strategy, |c| json!({"part": "create", "case": c}), |c| part1::run_create(&check, c));
+        pt::run(&check, "lib-random", check.tier.pick(32, 1500), opts(), part1::lib_strategy, |c| json!({"part": "lib", "case": c}), |c| part1::run_lib(&check, c));
+        pt::run(&check, "status-random", check.tier.pick(160, 12000), opts(), || status_strategy(&tps), part2::case_json, |c| status_property(&check, &tps, c));
     }
-    parallel_for(&grid, |case| {
-        let r = vcheck::engine::guard("status-grid", || status_property(&check, &tps, case)).and_then(|x| x);
-        if let Err(f) = r {
-            check.fail(&f, part2::case_json(case));
-        }
-    });
-
-    // ---- part 1: deterministic grids
-    let gc = grid_create();
-    parallel_for(&gc, |c| {
-        let r = vcheck::engine::guard("create-grid", || part1::run_create(&check, c)).and_then(|x| x);
-        if let Err(f) = r {
-            check.fail(&f, json!({"part": "create", "case": c}));
-        }
-    });
-    let gl = grid_lib();
-    parallel_for(&gl, |c| {
-        let r = vcheck::engine::guard("lib-grid", || part1::run_lib(&check, c)).and_then(|x| x);
-        if let Err(f) = r {
-            check.fail(&f, json!({"part": "lib", "case": c}));
-        }
-    });
-
-    // ---- random volume
-    let opts = || pt::Opts { max_shrink_iters: 60, ..pt::Opts::default() };
-    pt::run(&check, "create-random", check.tier.pick(32, 1500), opts(), part1::create_strategy, |c| json!({"part": "create", "case": c}), |c| part1::run_create(&check, c));
-    pt::run(&check, "lib-random", check.tier.pick(32, 1500), opts(), part1::lib_strategy, |c| json!({"part": "lib", "case": c}), |c| part1::run_lib(&check, c));
-    pt::run(&check, "status-random", check.tier.pick(160, 12000), opts(), || status_strategy(&tps), part2::case_json, |c| status_property(&check, &tps, c));
 
     // ---- part 3: output-content differential
     part3::run_all(&check, &tps);
